@@ -359,6 +359,23 @@ public:
         }
         if (vd->hasInit()) {
             o["init_text"] = textOf(vd->getInit());
+            // constructor arguments that fold to integers (cache capacities ...)
+            const Expr* ie = vd->getInit()->IgnoreImplicit();
+            if (auto* ewc = dyn_cast<ExprWithCleanups>(ie)) {
+                ie = ewc->getSubExpr()->IgnoreImplicit();
+            }
+            if (auto* ce = dyn_cast<CXXConstructExpr>(ie)) {
+                json::Array vals;
+                for (auto* a : ce->arguments()) {
+                    Expr::EvalResult ev;
+                    if (!a->isValueDependent() && a->EvaluateAsInt(ev, ctx_)) {
+                        vals.push_back(ev.Val.getInt().getExtValue());
+                    } else {
+                        vals.push_back(nullptr);
+                    }
+                }
+                o["init_args_int"] = std::move(vals);
+            }
         }
         statics_.push_back(std::move(o));
         return true;
